@@ -127,6 +127,17 @@ def streams(ctx):
                   sample_every=70)
     ctx.run_cases(LONGUSE, "one-api-object-and-a-device-that-is-slow-to-answer-under-a-virtual-clock",
                   [HH.with_slow_replies(rng, gen_reconnecting(rng)) for _ in range(ctx.n(80, 1500))], exhaustive=False, sample_every=40)
+    # thermostat control that sends the main command AND the separate swing command, the device slow over the state reply or the
+    # acknowledgement in between: the clock second ticks between the login and the later frames of the same exchange
+    tick = []
+    for _ in range(ctx.n(40, 600)):
+        c = G.gen_case(rng, "ctlbreeze")
+        c["req"] = dict(c["req"], ir=G.gen_irset(rng, special=True, dense=True), swing=rng.choice(["ON", "OFF"]), upd=0, state=c["req"].get("state") or "ON")
+        d = [0.0] * len(c["replies"])
+        d[rng.choice([1, 2, 2])] = rng.choice([1.0, 1.6, 3.5, 61.0])
+        tick.append({"tz": "UTC", "schedule": [], "virtual_clock": True,
+                     "instances": [{"did": c["did"], "key": c["key"], "api": "type2", "ops": [{"now": c["now"], "req": c["req"], "replies": c["replies"], "delays": d}]}]})
+    ctx.run_cases(LONGUSE, "command-plus-separate-swing-with-the-clock-ticking-in-between", tick, exhaustive=False, sample_every=20)
     per = ctx.n(220, 4500)
     for op in G.ALL_OPS:
         ctx.run_cases(OPFRAMES, f"random-{op}", [G.gen_case(rng, op) for _ in range(per if op != "ctlbreeze" else per * 2)],
